@@ -53,7 +53,9 @@ def gen_requests(rng, tier):
         rs += [['RDiracPsi', p] for p in (0.0, 1.0, -0.5, 1.5, 0.5, 0.25)]
         rs += [['RRewardCount', k, m] for k, m in [(1, 2), (2, 1), (2, 3), (1, 1), (2, 2), (3, 3)]]
         rs += [['RMutationConfig', ln, ex, th, ne] for ln, ex, th, ne in [(2, 3, 1.0, 1), (4, 3, 1.0, 1), (3, 3, neg(), 1), (3, 3, 1.0, 2),
-                                                                         (3, 3, 1.0, 1), (2, 2, 0.0, 1), (3, 3, 0.5, 1)]]
+                                                                         (3, 3, 1.0, 1), (2, 2, 0.0, 1), (3, 3, 0.5, 1),
+                                                                         (2, 3, 0.0, 1), (0, 3, 0.0, 1), (5, 4, 0.0, 1), (4, 4, 0.0, 1),
+                                                                         (rng.randrange(0, 6), rng.randrange(2, 6), rng.choice([0.0, 0.0, 0.5]), 1)]]
         rs += [['RQuantile', q] for q in (-0.1, 1.5, 0.0, 0.5, 0.99)]
     return rs
 
